@@ -605,9 +605,26 @@ func (c *Conn) Write(r *Ctx) {
 	// The write loop may have gone away between the send and now, in which case
 	// it has already drained the queue and nobody will ever pick this Ctx up.
 	// Resolving twice is harmless: Err is buffered and read once.
+	//
+	// It may also still be there, and pick the Ctx up after this: with done
+	// closed and the Ctx queued its select is free to take either. Saying
+	// "closed, send it again" is only true if the request is then kept from
+	// going out, so the Ctx is taken back first. If the write loop has got as
+	// far as giving it a stream, the answer is left to the write loop.
 	select {
 	case <-c.done:
-		r.resolve(c.closeErr())
+		r.lck.Lock()
+
+		unsent := atomic.LoadUint32(&r.streamID) == 0
+		if unsent {
+			r.done = true
+		}
+
+		r.lck.Unlock()
+
+		if unsent {
+			r.resolve(c.closeErr())
+		}
 	default:
 	}
 }
